@@ -30,11 +30,31 @@ var solvers = []solverSpec{
 	}},
 }
 
-func (g *Gen) header(cexArrays []string) string {
+func (g *Gen) header(cexArrays []string, body string) string {
 	var b strings.Builder
 	b.WriteString(preludeText(cexArrays != nil))
 	b.WriteString(g.m.structDecls())
-	b.WriteString(g.m.litDecls(cexArrays != nil))
+	// only the string literals the query (or a spec function) mentions
+	var fd strings.Builder
+	for _, d := range g.m.funcsDecl {
+		fd.WriteString(d.proof)
+	}
+	all := body + fd.String()
+	b.WriteString(g.m.litDecls(cexArrays != nil, func(n string) bool {
+		i := strings.Index(all, n)
+		for i >= 0 {
+			j := i + len(n)
+			if j >= len(all) || all[j] < '0' || all[j] > '9' {
+				return true
+			}
+			k := strings.Index(all[j:], n)
+			if k < 0 {
+				break
+			}
+			i = j + k
+		}
+		return false
+	}))
 	for _, d := range g.m.extraDecl {
 		b.WriteString(d + "\n")
 	}
@@ -64,7 +84,12 @@ func (o *Obl) query(extra string) string { return o.queryWith(nil, extra, "") }
 // queryWith: cexArrays != nil selects the counterexample form of the prelude axioms.
 func (o *Obl) queryWith(cexArrays []string, extra, post string) string {
 	var b strings.Builder
-	b.WriteString(o.gen.header(cexArrays))
+	var body strings.Builder
+	for _, c := range o.gen.cmds[:o.ncmds] {
+		body.WriteString(c + "\n")
+	}
+	body.WriteString(o.reach + "\n" + o.goal + "\n" + extra)
+	b.WriteString(o.gen.header(cexArrays, body.String()))
 	for _, c := range o.gen.cmds[:o.ncmds] {
 		b.WriteString(c + "\n")
 	}
